@@ -71,6 +71,11 @@ func doRequest(request *http.Request, executor failsafe.Executor[*http.Response]
 	}
 
 	return executor.GetWithExecution(func(exec failsafe.Execution[*http.Response]) (*http.Response, error) {
+		// Close the previous attempt's response, if any, so that its connection is released before trying again
+		if last := exec.LastResult(); last != nil && last.Body != nil {
+			last.Body.Close()
+		}
+
 		ctx, cancel := util.MergeContexts(request.Context(), exec.Context())
 		defer cancel(nil)
 		req := request.WithContext(ctx)
